@@ -7,6 +7,7 @@ postconditions ("every caller ...") are proved POINTWISE for one arbitrary task 
 (index i0, key k0, future f0): the code touches the maps at other indices only through operations
 whose frame is part of their stub contract.
 """
+import ast
 import z3
 
 from pyvc.values import *  # noqa: F401,F403
@@ -310,7 +311,21 @@ def t_process_batch(E, cancellable=False):
             st['ans0'] = z3.If(z3.And(pre_has, pair_key(el) == k0), pair_res(el), st['ans0'])
             st['ans0_key'] = z3.If(z3.And(pre_has, pair_key(el) == k0), pair_key(el), st['ans0_key'])
             E.assign(stn.target, VVal(el), fr)
-        E.cut_loop(stn, fr, inv, havoc, test=test, bind=bind, label='stream')
+        def on_exit(how):
+            # after the loop the targets hold the LAST element -- if there was one: a batch function may yield nothing
+            if how != 'exit':
+                return
+            from pyvc.engine import _stored_names
+            names = _stored_names([stn.target])
+            if E.choose([('yielded_nothing', None), ('yielded_something', None)], 'stream length') == 'yielded_nothing':
+                for nm in names:
+                    fr.loop_assigned.discard(nm)
+            else:
+                if all(nm in fr.loop_assigned for nm in names):
+                    E.assign(stn.target, VVal(E.fresh('last_stream_elem', ValS)), fr)
+                    for nm in names:
+                        fr.loop_assigned.discard(nm)
+        E.cut_loop(stn, fr, inv, havoc, test=test, bind=bind, label='stream', on_exit=on_exit)
 
     def loop_foreach(E_, stn, fr, kind, src):
         """`for fut in futs.values()` / `for key, fut in futs.items()`: every registered future is visited
@@ -502,6 +517,15 @@ def t_get_next_batch(E):
                                 '`batch_timeout or None` for batch_timeout=0)')
                 raise PathEnd()
             inner, T = v.fields['inner'], _real(v.fields['timeout'])
+            if isinstance(inner, Obj) and inner.cls == 'Awaitable' and inner.fields['kind'] == 'shield_in_get_next_batch' and \
+                    isinstance(inner.fields['inner'], Obj) and inner.fields['inner'].cls == 'Awaitable' and \
+                    inner.fields['inner'].fields['kind'] == 'q_get':
+                E.oblige(Qn + '/timeout.a_timed_out_get_is_withdrawn_from_the_queue', z3.BoolVal(False),
+                         props={'C10', 'C04', 'C15'},
+                         detail='wait_for(shield(q.get()), T): the time-out cancels the shield only; the getter stays '
+                                'behind, takes the next item that arrives and hands it to nobody -- a request no batch '
+                                'ever carries')
+                raise PathEnd()
             if not (isinstance(inner, Obj) and inner.cls == 'Awaitable' and inner.fields['kind'] == 'q_get'):
                 raise Unsupported('wait_for of %r' % (inner,), node)
             st['timed_waits'] = st.get('timed_waits', 0) + 1
@@ -523,6 +547,8 @@ def t_get_next_batch(E):
         ns = Bn[('import', 'asyncio')]
         ns.attrs['wait_for'] = VStub('asyncio.wait_for', lambda E_, a, k: aio.mk_awaitable(
             'wait_for', inner=a[0], timeout=a[1]))
+        ns.attrs['shield'] = VStub('asyncio.shield', lambda E_, a, k: aio.mk_awaitable('shield_in_get_next_batch', inner=a[0]))
+        aio.AWAIT['shield_in_get_next_batch'] = lambda E_, v, node: E.await_(v.fields['inner'], node)
 
         def qattr(E_, obj, name, node):
             if obj is st['q']:
@@ -554,10 +580,48 @@ def t_get_next_batch(E):
             raise Unsupported('iter(%r)' % (a,))
         Bn['iter'] = VStub('iter', mk_iter)
 
+        def available(d, t0):
+            avail = E.fresh('avail', I)            # number of items that have arrived and are not yet dequeued
+            E.assume(avail >= 0)
+            E.assume(z3.Implies(avail > 0, arrived(d + avail - 1, t0)))
+            E.assume(z3.Or(d + avail >= z3.Length(arrivals), z3.Not(arrived(d + avail, t0))))
+            E.assume(d + avail <= z3.Length(arrivals))
+            return avail
+
+        def drain_comprehension(E_, node, fr, kind, src):
+            """[q.get_nowait() for _ in range(n)]: takes min(n, available) items off the queue; with fewer than n
+            available get_nowait() raises QueueEmpty out of the comprehension and the list built so far -- with the
+            items already taken -- is dropped."""
+            el = node.elt
+            if not (kind == 'list' and isinstance(src, Obj) and src.cls == 'range' and isinstance(el, ast.Call)
+                    and not el.args and not el.keywords):
+                raise Unsupported('comprehension over %r' % (src,), node)
+            fn_ = E.eval(el.func, fr)
+            if not (isinstance(fn_, VStub) and fn_.name == 'Queue.get_nowait'):
+                raise Unsupported('comprehension of %r' % (fn_,), node)
+            n = src.fields['n']
+            n = z3.If(n.t > 0, n.t, z3.IntVal(0))
+            d, t0 = deq(), now(E)
+            avail = available(d, t0)
+            m = z3.If(n <= avail, n, avail)
+            E.assume(z3.Implies(m > 0, arrived(d + m - 1, t0)))
+            E.w['deq'] = d + m
+            st['drains'] = st.get('drains', 0) + 1
+            if E.branch(avail < n):
+                E.oblige(Qn + '/drain.items_taken_off_the_queue_reach_the_batch', m == 0, props={'C10', 'C04'},
+                         detail='QueueEmpty raised inside a comprehension discards the list under construction: the '
+                                'requests already dequeued are in no batch, their callers wait for ever')
+                E.throw('QueueEmpty', origin='drain')
+            return Obj('AbsList', dict(seq=z3.Extract(arrivals, d, m)))
+        Bn['__comprehension__'] = drain_comprehension
+
         def extend(lst, src, node):
             """tasks.extend(islice(iter(q.get_nowait, sentinel), n)): appends the next min(n, available) queued
             items in FIFO order, then raises QueueEmpty iff fewer than n were available; list.extend keeps what
             it appended before its iterator raised (Appendix B of DESIGN)."""
+            if isinstance(src, Obj) and src.cls == 'AbsList':
+                lst.fields['seq'] = z3.Concat(lst.fields['seq'], src.fields['seq'])
+                return NONE
             if not (isinstance(src, Obj) and src.cls == 'islice' and isinstance(src.fields['it'], Obj)
                     and src.fields['it'].cls == 'drain_iter'):
                 raise Unsupported('tasks.extend(%r)' % (src,), node)
@@ -732,7 +796,9 @@ def t_get_next_batch(E):
                        now(E) == st.get('wait_start', now(E)) + T,
                        z3.Or(d >= z3.Length(arrivals), z3.Not(arrived(d, now(E)))))
         E.oblige(Qn + '/ensures.leaves_only_when_full_or_after_batch_timeout_of_silence', z3.Or(full, timed),
-                 detail='calls less than batch_timeout apart share a batch until it is full')
+                 props={'C10', 'C15'},
+                 detail='calls less than batch_timeout apart share a batch until it is full (the batch_timeout and '
+                        'max_batch_size given take effect)')
         if st.get('timed_out'):
             E.oblige(Qn + '/ensures.timer_started_when_the_last_member_joined',
                      z3.And(st['wait_start'] >= arr_time(d - 1), st['wait_start'] >= st['t_entry']),
@@ -778,8 +844,26 @@ def t_processing_loop(E):
         E.cut_loop(stn, fr, inv, havoc, label='forever', step=step)
     E.hooks[(Qn, 'loop', 0)] = loop0
 
+    def with_(E_, cm, is_async, node):
+        if isinstance(cm, Obj) and cm.cls == 'ASemaphore':
+            def enter():
+                E.effect('sem.acquire', cm)
+                st['in_sem'] = True
+                return NONE
+
+            def exit_(exc):
+                E.effect('sem.release', cm)
+                st['in_sem'] = False
+                return False
+            return enter, exit_
+        return None
+
     class _GNB:
         def on_call(self, E_, fobj, args, kwargs, node):
+            E.oblige(Qn + '/iteration.the_next_batch_is_assembled_without_holding_a_concurrency_slot',
+                     z3.BoolVal(not st.get('in_sem')), props={'C10', 'C15'},
+                     detail='max_concurrent_batches=N has to allow N executions of the batch function at a time: a '
+                            'slot held while waiting for requests is one execution fewer (none at all for N=1)')
             st['got'] = st.get('got', 0) + 1
             st['batch'] = VSeq(E.fresh('batch', VS), VVal)
             return aio.mk_awaitable('ready', value=st['batch'])
@@ -796,8 +880,10 @@ def t_processing_loop(E):
     def body():
         st.clear()
         mod = E.modules[MOD]
-        o = Obj(mod.classes[CLS], dict(_loop=E.fresh_val('loop', LoopS)))
+        o = Obj(mod.classes[CLS], dict(_loop=E.fresh_val('loop', LoopS),
+                                       _semaphore=Obj('ASemaphore', dict(value=E.fresh_int('permits')))))
         st['o'] = o
+        E.builtins['__with_ext__'] = with_
         E.specs[MOD + '.' + CLS + '._get_next_batch'] = _GNB()
         E.specs[MOD + '.' + CLS + '._process_batch'] = _PB()
         aio.AWAIT['ready'] = lambda E_, v, node: v.fields['value']
@@ -813,7 +899,7 @@ def t_processing_loop(E):
 
 TASKS.update({
     'batcher._get_next_batch': (t_get_next_batch, {'C10', 'C15', 'C04'}),
-    'batcher._processing_loop': (t_processing_loop, {'C10', 'C04'}),
+    'batcher._processing_loop': (t_processing_loop, {'C10', 'C04', 'C15'}),
 })
 
 
